@@ -103,15 +103,19 @@ Record genv : Type := mkGenv {
                                 functions that are themselves `try`-free)                          *);
   gPos : nat                 (* where a record-typed expression being generated will go (Types.v,
                                 records without aliasing): 2 = stored / returned: fresh records only;
-                                1 = argument: fresh or an immutable name; 0 = operand of a field read *)
+                                1 = argument: fresh or an immutable name; 0 = operand of a field read *);
+  gNoClo : bool              (* inside an `if` expression: no function expression.  The pinned compiler
+                                answers "Cannot determine the meaning of this expression because the type
+                                of one of its subexpressions cannot yet be completely analyzed" for
+                                `if c then f(.., lambda, ..) else f(.., lambda, ..)` (reported)          *)
 }.
 
 Definition set_L (E : genv) (l : list (ty * vkind)) : genv :=
-  mkGenv (gFe E) (gG E) (gF E) l (gCnt E) (gTop E) (gRet E) (gLoop E) (gPureF E) (gSelf E) (gNoIf E) (gNoLoop E) (gInTry E) (gThr E) (gNoTry E) (gNoSC E) (gCallTF E) (gPos E).
+  mkGenv (gFe E) (gG E) (gF E) l (gCnt E) (gTop E) (gRet E) (gLoop E) (gPureF E) (gSelf E) (gNoIf E) (gNoLoop E) (gInTry E) (gThr E) (gNoTry E) (gNoSC E) (gCallTF E) (gPos E) (gNoClo E).
 Definition set_loop (E : genv) (b : bool) : genv :=
-  mkGenv (gFe E) (gG E) (gF E) (gL E) (gCnt E) (gTop E) (gRet E) b (gPureF E) (gSelf E) (gNoIf E) (gNoLoop E) (gInTry E) (gThr E) (gNoTry E) (gNoSC E) (gCallTF E) (gPos E).
+  mkGenv (gFe E) (gG E) (gF E) (gL E) (gCnt E) (gTop E) (gRet E) b (gPureF E) (gSelf E) (gNoIf E) (gNoLoop E) (gInTry E) (gThr E) (gNoTry E) (gNoSC E) (gCallTF E) (gPos E) (gNoClo E).
 Definition set_cnt (E : genv) (c : list nat) : genv :=
-  mkGenv (gFe E) (gG E) (gF E) (gL E) c (gTop E) (gRet E) (gLoop E) (gPureF E) (gSelf E) (gNoIf E) (gNoLoop E) (gInTry E) (gThr E) (gNoTry E) (gNoSC E) (gCallTF E) (gPos E).
+  mkGenv (gFe E) (gG E) (gF E) (gL E) c (gTop E) (gRet E) (gLoop E) (gPureF E) (gSelf E) (gNoIf E) (gNoLoop E) (gInTry E) (gThr E) (gNoTry E) (gNoSC E) (gCallTF E) (gPos E) (gNoClo E).
 
 (* With the qualified literal style (fQual) nothing at the top level of a file nests an `if`
    (statement or expression) and a loop in either order: the pinned compiler rejects a
@@ -126,13 +130,16 @@ Definition set_cnt (E : genv) (c : list nat) : genv :=
    `if ({ if b then { return x }; true }) then ..` inside a function with "The `return' is
    not inside a function" (reported as a finding)                                          *)
 Definition no_ret (E : genv) : genv :=
-  mkGenv (gFe E) (gG E) (gF E) (gL E) (gCnt E) (gTop E) None (gLoop E) (gPureF E) (gSelf E) (gNoIf E) (gNoLoop E) (gInTry E) (gThr E) (gNoTry E) (gNoSC E) (gCallTF E) (gPos E).
+  mkGenv (gFe E) (gG E) (gF E) (gL E) (gCnt E) (gTop E) None (gLoop E) (gPureF E) (gSelf E) (gNoIf E) (gNoLoop E) (gInTry E) (gThr E) (gNoTry E) (gNoSC E) (gCallTF E) (gPos E) (gNoClo E).
 Definition set_pos (E : genv) (p : nat) : genv :=
   mkGenv (gFe E) (gG E) (gF E) (gL E) (gCnt E) (gTop E) (gRet E) (gLoop E) (gPureF E) (gSelf E) (gNoIf E)
-         (gNoLoop E) (gInTry E) (gThr E) (gNoTry E) (gNoSC E) (gCallTF E) p.
+         (gNoLoop E) (gInTry E) (gThr E) (gNoTry E) (gNoSC E) (gCallTF E) p (gNoClo E).
+Definition set_noclo (E : genv) : genv :=
+  mkGenv (gFe E) (gG E) (gF E) (gL E) (gCnt E) (gTop E) (gRet E) (gLoop E) (gPureF E) (gSelf E) (gNoIf E)
+         (gNoLoop E) (gInTry E) (gThr E) (gNoTry E) (gNoSC E) (gCallTF E) (gPos E) true.
 Definition set_try (E : genv) (b : bool) : genv :=
   mkGenv (gFe E) (gG E) (gF E) (gL E) (gCnt E) (gTop E) (gRet E) (gLoop E) (gPureF E) (gSelf E) (gNoIf E)
-         (gNoLoop E) b (gThr E) (gNoTry E) (gNoSC E) (gCallTF E) (gPos E).
+         (gNoLoop E) b (gThr E) (gNoTry E) (gNoSC E) (gCallTF E) (gPos E) (gNoClo E).
 (* may a call to g be placed here: throwing functions only where the exception is caught
    (or passed on by a function that is itself marked throwing)                             *)
 Definition thr_ok (E : genv) (g : fsig) : bool :=
@@ -146,13 +153,13 @@ Definition lists_ok (E : genv) : bool := ((fList (gFe E) || fDom (gFe E) || fRcd
 Definition is_list (t : ty) : bool := match t with TList _ | TBox _ _ | TRec _ | TArr _ | TUni _ | TFun _ _ => true | _ => false end.
 Definition force_noif (E : genv) : genv :=
   mkGenv (gFe E) (gG E) (gF E) (gL E) (gCnt E) (gTop E) (gRet E) (gLoop E) (gPureF E) (gSelf E) true
-         (gNoLoop E) (gInTry E) (gThr E) (gNoTry E) (gNoSC E) (gCallTF E) (gPos E).
+         (gNoLoop E) (gInTry E) (gThr E) (gNoTry E) (gNoSC E) (gCallTF E) (gPos E) (gNoClo E).
 Definition sig_has_list (g : fsig) : bool := existsb is_list (gs_ret g :: gs_params g).
 Definition topq (E : genv) : bool := (gTop E && fQual (gFe E))%bool.
 Definition no_top_loop (E : genv) : genv :=
   if gTop E
   then mkGenv (gFe E) (gG E) (gF E) (gL E) (gCnt E) (gTop E) (gRet E) (gLoop E) (gPureF E) (gSelf E) (gNoIf E)
-              (fQual (gFe E) || gNoLoop E) (gInTry E) (gThr E) true (gNoSC E) (gCallTF E) (gPos E)
+              (fQual (gFe E) || gNoLoop E) (gInTry E) (gThr E) true (gNoSC E) (gCallTF E) (gPos E) (gNoClo E)
   else E.
 (* The condition of an exit `c => ..` holds no short-circuit `and` / `or`: the pinned compiler
    crashes on `(if c then (b or false) else b) => false; ..; false` inside a function (the
@@ -161,11 +168,11 @@ Definition no_top_loop (E : genv) : genv :=
 Definition exit_cond (E : genv) : genv :=
   let E1 := no_top_loop E in
   mkGenv (gFe E1) (gG E1) (gF E1) (gL E1) (gCnt E1) (gTop E1) (gRet E1) (gLoop E1) (gPureF E1) (gSelf E1)
-         (gNoIf E1) (gNoLoop E1) (gInTry E1) (gThr E1) (gNoTry E1) true (gCallTF E1) (gPos E1).
+         (gNoIf E1) (gNoLoop E1) (gInTry E1) (gThr E1) (gNoTry E1) true (gCallTF E1) (gPos E1) (gNoClo E1).
 Definition set_noif (E : genv) : genv :=
   mkGenv (gFe E) (gG E) (gF E) (gL E) (gCnt E) (gTop E) (gRet E) (gLoop E) (gPureF E) (gSelf E)
          (topq E || (gTop E && (fRcd (gFe E) || fArr (gFe E) || fUni (gFe E))))%bool
-         (gNoLoop E) (gInTry E) (gThr E) (gNoTry E) (gNoSC E) (gCallTF E) (gPos E).
+         (gNoLoop E) (gInTry E) (gThr E) (gNoTry E) (gNoSC E) (gCallTF E) (gPos E) (gNoClo E).
 
 Definition elem_types (fe : feats) : list bty :=
   [BMI; BBool] ++ (if fInt fe then [BInt] else []) ++ (if fStr fe then [BStr] else []).
@@ -278,6 +285,7 @@ Definition leaf (E : genv) (m : mode) (t : ty) (r : rng) : expr :=
   let fresh_val :=
       match t with
       | TFun ps r0 =>
+        if gNoClo E then gen_lit t r else
           match filter (fun g => match gs_ncap g with
                                  | Some k => (tys_eqb (skipn k (gs_params g)) (map ty_of_bty ps)
                                               && ty_eqb (gs_ret g) (ty_of_bty r0))%bool
@@ -307,6 +315,7 @@ Definition leaf (E : genv) (m : mode) (t : ty) (r : rng) : expr :=
 (* callable functions with result t in mode m *)
 Definition callable (E : genv) (m : mode) (t : ty) : list fsig :=
   filter (fun g => (ty_eqb (gs_ret g) t && thr_ok E g && (lists_ok E || negb (sig_has_list g))
+                    && (negb (gNoClo E || gLoop E) || negb (existsb (fun t0 => match t0 with TFun _ _ => true | _ => false end) (gs_ret g :: gs_params g)))
                     && match m with
                        | MAny => negb (gPureF E) || gs_pure g
                        | MPure => gs_pure g
@@ -342,6 +351,11 @@ Fixpoint gen_expr (sz : nat) (E : genv) (m : mode) (t : ty) (r : rng) {struct sz
     let args2 (t1 t2 : ty) := [gen_expr k E (am 2%nat 0%nat) t1 (ch r 1); gen_expr k E (am 2%nat 1%nat) t2 (ch r 2)] in
     let c := rn r 0 12 in
     if c <? 3 then leaf E m t r
+    else if (c <? 8) && fDom (gFe E) && negb (gTop E && gNoTry E) && rb r 47 1 8
+            && (match t with TMI => true | _ => false end) then
+      (* a constant export with a default value / a default function using it, through a domain *)
+      let d := pick r 48 [SzA; SzB; SzC] SzA in
+      EPrim (if rb r 49 1 2 then PSzLimit d else PSzTwice d) []
     else if (c <? 8) && fClo (gFe E) && negb (gTop E && gNoTry E) && negb (gPureF E) && rb r 45 1 5
             && (match m with MAny => true | _ => false end)
             && (match t with TMI | TInt | TBool | TStr => true | _ => false end) then
@@ -353,11 +367,11 @@ Fixpoint gen_expr (sz : nat) (E : genv) (m : mode) (t : ty) (r : rng) {struct sz
           let ps := snd (fst sh) in
           let fn := leaf E MPure (TFun ps (snd sh)) (ch r 1) in
           (* inside a loop only an existing function value can be applied *)
-          if (gLoop E && match fn with EClo _ _ _ _ => true | _ => false end)%bool then leaf E m t r
+          if ((gLoop E || gNoClo E) && match fn with EClo _ _ _ _ => true | _ => false end)%bool then leaf E m t r
           else EApp fn (map (fun ib => gen_expr k E MPure (ty_of_bty (snd ib)) (ch r (Z.of_nat (fst ib) + 2)))
                             (combine (seq 0 (List.length ps)) ps))
       end
-    else if (c <? 8) && fUni (gFe E) && negb (gTop E && gNoTry E) && negb (gNoIf E) && rb r 42 1 6
+    else if (c <? 8) && fUni (gFe E) && negb (gTop E) && negb (gNoIf E) && rb r 42 1 6
             && (match t with TMI | TInt | TBool | TStr => true | _ => false end) then
       (* `u case f<i>` / guarded branch access `if u case f<i> then u.f<i> else lit`; u is pure, written twice *)
       let cands := flat_map (fun fs => map (fun i => (fs, i))
@@ -386,7 +400,9 @@ Fixpoint gen_expr (sz : nat) (E : genv) (m : mode) (t : ty) (r : rng) {struct sz
       match cands with
       | [] => leaf E m t r
       | c0 :: _ => let fi := pick r 38 cands c0 in
-                   EField (snd fi) (gen_expr k (set_pos E 0) m (TRec (fst fi)) (ch r 1))
+                   (* the operand is a name or a fresh record, not a call: see corpus
+                      relt-unimplemented-in-interpreter *)
+                   EField (snd fi) (leaf (set_pos E 0) m (TRec (fst fi)) (ch r 1))
       end
     else if (c <? 8) && fDom (gFe E) && negb (gTop E && gNoTry E)
             && (match t with TMI => true | TInt => true | _ => false end) && rb r 35 1 6 then
@@ -540,8 +556,8 @@ Fixpoint gen_expr (sz : nat) (E : genv) (m : mode) (t : ty) (r : rng) {struct sz
       end
     else if c <? 11 then
       if gNoIf E then leaf E m t r
-      else if (gTop E && is_list t)%bool then leaf E m t r
-      else let Ei := (match t with TRec _ | TArr _ => set_pos (no_top_loop E) (match gPos E with 0%nat => 0%nat | _ => 2%nat end)
+      else if ((gTop E && is_list t) || match t with TFun _ _ => true | _ => false end)%bool then leaf E m t r
+      else let Ei := set_noclo (match t with TRec _ | TArr _ => set_pos (no_top_loop E) (match gPos E with 0%nat => 0%nat | _ => 2%nat end)
                                | _ => no_top_loop E end) in
            EIf (gen_expr k Ei m TBool (ch r 1)) (gen_expr k Ei m t (ch r 2)) (gen_expr k Ei m t (ch r 3))
     else
@@ -710,7 +726,9 @@ with gen_stmts (sz : nat) (E : genv) (vs : option ty) (r : rng) {struct sz} : li
       end
     else
       (* call for effect *)
-      match filter (fun g => (negb (gs_pure g) && thr_ok E g && (lists_ok E || negb (sig_has_list g)))%bool)
+      match filter (fun g => (negb (gs_pure g) && thr_ok E g && (lists_ok E || negb (sig_has_list g))
+                              && (negb (gNoClo E || gLoop E)
+                                  || negb (existsb (fun t0 => match t0 with TFun _ _ => true | _ => false end) (gs_params g))))%bool)
                    (if gPureF E then [] else gF E) with
       | [] => simple k
       | g0 :: gs' =>
@@ -766,7 +784,7 @@ Definition gen_fun (sz : nat) (fe : feats) (G : list (ty * vkind)) (fs : list fs
   let ncnt := if fWhile fe then Z.to_nat (rn r 8 2) else 0%nat in
   let ltys := map (fun i => gen_ty fe r (Z.of_nat i + 50)) (seq 0 nloc) in
   let pframe := map (fun t => (t, KConst)) ps in
-  let E0 := mkGenv fe G fs pframe [] false (Some ret) false pure None false false false false (negb maytry) false (negb maytry) 2%nat in
+  let E0 := mkGenv fe G fs pframe [] false (Some ret) false pure None false false false false (negb maytry) false (negb maytry) 2%nat false in
   (* initialisers of the locals: each sees the parameters and the earlier locals *)
   let locals :=
       (fix go (i : nat) (ts : list ty) (fr : list (ty * vkind)) : list (ty * expr) :=
@@ -778,7 +796,7 @@ Definition gen_fun (sz : nat) (fe : feats) (G : list (ty * vkind)) (fs : list fs
   let cnts := map (fun _ => (TMI, ELit (LNum NMI 0))) (seq 0 ncnt) in
   let frame := pframe ++ map (fun t => (t, KVar)) ltys ++ map (fun _ => (TMI, KCnt)) (seq 0 ncnt) in
   let E := mkGenv fe G fs frame (seq (np + nloc) ncnt) false (Some ret) false pure
-                  (if isrec then Some me else None) false false false thr (negb maytry) false (negb maytry) 2%nat in
+                  (if isrec then Some me else None) false false false thr (negb maytry) false (negb maytry) 2%nat false in
   let guard := if isrec
                then [SExitV (EPrim (PLe NMI) [ELoc 0; ELit (LNum NMI 0)]) (gen_expr 1 (set_L E0 pframe) MPure ret (ch r 9))]
                else [] in
@@ -813,7 +831,7 @@ Fixpoint gen_items (n : nat) (sz : nat) (fe : feats) (G : list (ty * vkind)) (cn
                             | _ => []
                             end) (seq 0 (List.length G))
   | S n' =>
-      let E := mkGenv fe G fs [] cnt true None false false None false false false false false false false 2%nat in
+      let E := mkGenv fe G fs [] cnt true None false false None false false false false false false false 2%nat false in
       let c := rn r 0 10 in
       if c <? 3 then
         let t := gen_ty fe r 1 in
